@@ -112,6 +112,8 @@ static int run_map(int kind, const int* ops, int n) {
     else if (op < 12) { int k = op - 8; if (!present[k]) { ok = 0; break; } rem(t, $I(k * 55)); present[k] = 0; cnt--; }
     else if (op == 12) { resize(t, 0); memset(present, 0, sizeof present); cnt = 0; }
     else if (op == 13) { var c = copy(t); T_u(eq(c, t)); T_u(hash(c) == hash(t)); del_raw(t); t = kind == 0 ? (var)new_raw(Table, Int, Int) : (var)new_raw(Tree, Int, Int); assign(t, c); del(c); }
+    else if (op == 14) { if (kind != 0 || cnt == 0) { ok = 0; break; } resize(t, (size_t)cnt); }            /* shrink to fit: in contract */
+    else if (op == 15) { if (kind != 0) { ok = 0; break; } resize(t, (size_t)cnt * 2 + 3); }                    /* reserve */
     if (ok) observe_map(t);
   }
   del_raw(t);
@@ -366,7 +368,7 @@ static uint64_t run_values(void) {
 
 struct domain { const char* name; int nops; int depth; int fixedlen; };
 static struct domain DOM[] = {
-  { "array", 16, 4, 0 }, { "list", 16, 4, 0 }, { "table", 14, 4, 0 }, { "tree", 14, 4, 0 }, { "string", 10, 4, 0 },
+  { "array", 16, 4, 0 }, { "list", 16, 4, 0 }, { "table", 16, 4, 0 }, { "tree", 14, 4, 0 }, { "string", 10, 4, 0 },
   { "exc", 3, 5, 1 }, { "view", 6, 4, 1 },
   { "gcuse", 10, 4, 0 }, { "strarray", 8, 4, 0 }, { "strlist", 8, 4, 0 }, { "strtable", 8, 4, 0 },
 };
